@@ -1,5 +1,6 @@
 import MtailVerif.Proofs.Runtime
 import MtailVerif.Generated.Runtime
+import MtailVerif.Proofs.Skeletons
 /-! # C14 — Program reload preserves state and never duplicates series -/
 namespace MtailVerif.C14
 open MtailVerif MtailVerif.Runtime
@@ -89,5 +90,11 @@ theorem partial_registration_counterexample :
     (registerAll true [([99], [other])] [ok, clash]).toOption = none ∧
     (registerPartial true [([99], [other])] [ok, clash]).length = 2 := by
   decide
+
+/-! ### regenerated control skeletons (written by lib/wire_skeletons.py) -/
+/-- Obligations over regenerated facts: the functions this property's model stands for have the
+    control skeleton the model was written against (`Proofs/Skeletons.lean`, one `rfl` per function
+    or clause; DESIGN.md §11.6a) -/
+theorem loader_skeletons : Skeletons.LoaderShape := Skeletons.loader_shape
 
 end MtailVerif.C14
